@@ -262,13 +262,22 @@ impl GraphEngine {
         {
             let txid = self.next_txid.fetch_add(1, Ordering::Relaxed);
             let mut wal = self.wal.lock().unwrap();
-            wal.append(&WalRecord::BeginTx { txid })?;
-            wal.append(&WalRecord::CreateLabel {
-                name: name.to_string(),
-                label_id: returned_id,
-            })?;
-            wal.append(&WalRecord::CommitTx { txid })?;
-            wal.fsync()?;
+            let start = wal.len()?;
+            let mut log_label = || -> Result<()> {
+                wal.append(&WalRecord::BeginTx { txid })?;
+                wal.append(&WalRecord::CreateLabel {
+                    name: name.to_string(),
+                    label_id: returned_id,
+                })?;
+                wal.append(&WalRecord::CommitTx { txid })?;
+                wal.fsync()
+            };
+            if let Err(e) = log_label() {
+                // The id is not taken in memory; take it out of the log again as well, or
+                // the next new label would be logged under the same id.
+                let _ = wal.truncate_to(start);
+                return Err(e);
+            }
         }
         let created_id = interner.get_or_create(name);
         debug_assert_eq!(created_id, returned_id);
